@@ -18,6 +18,7 @@ type RDBCase struct {
 	Val     *RValue
 	Encs    []RDBEnc
 	Core    bool // part of the reduced universe used in cross products with configurations
+	Heavy   bool // megabyte-sized value: harnesses enumerate it with few versions / configurations
 }
 
 func bss(ss ...string) [][]byte {
@@ -243,6 +244,13 @@ func RDBCatalogue() []RDBCase {
 	add("string/binary256", "lzf", false, str(distinct(256)), rawLzf)
 	add("string/len16383", "raw", false, str(rep("q", 16383)), rawLzf)
 	add("string/len16384", "raw", true, str(distinct(251)+rep("r", 16384-251)), rawLzf)
+	// values larger than the loader's 1 MiB read chunk (valid input crossing the chunk loop: exactly one
+	// chunk, one byte more, two chunks and a bit)
+	for _, n := range []int{1 << 20, 1<<20 + 1, 2<<20 + 5} {
+		c = append(c, RDBCase{Name: "string/len" + strconv.Itoa(n), Feature: "megabyte", Val: str(distinct(n)), Encs: raw, Heavy: true})
+	}
+	c = append(c, RDBCase{Name: "list/elem1048577", Feature: "megabyte", Val: &RValue{Type: 'l', List: bss("head", distinct(1<<20+1), "tail")},
+		Encs: []RDBEnc{{Kind: "linked"}, {Kind: "quicklist2", Node: 1, PlainMin: 1 << 20}}, Heavy: true})
 	// ---- lists
 	add("list/small", "small", true, &RValue{Type: 'l', List: bss("a", "b", "a", "")}, listEncs(true, true))
 	add("list/ziplist-ints", "intwidths", true, &RValue{Type: 'l', List: bss(ZiplistInts...)}, listEncs(true, true))
